@@ -171,18 +171,19 @@ func RewriteGenerator(dir string) (*GenReport, error) {
 }
 
 type genWalker struct {
-	pkg     *packages.Package
-	file    *ast.File
-	rel     string
-	es      *editSet
-	rep     *GenReport
-	nextID  *int
-	perIter bool
+	pkg      *packages.Package
+	file     *ast.File
+	rel      string
+	es       *editSet
+	rep      *GenReport
+	nextID   *int
+	perIter  bool
 	hookPath string // import path of the hook package
 
 	needHook bool
 	perFunc  map[string]int
 	selN     int
+	rtMode   bool // instrumenting a generated package for rtsim (not the generator for gensim)
 }
 
 func (w *genWalker) off(p token.Pos) int { return w.pkg.Fset.Position(p).Offset }
@@ -215,8 +216,8 @@ func (w *genWalker) run() {
 	w.perFunc = map[string]int{}
 	info := w.pkg.TypesInfo
 	// imports
-	usesOf := map[string]int{}     // import path -> number of identifier uses in this file
-	rewritten := map[string]int{}  // import path -> uses rewritten away
+	usesOf := map[string]int{}    // import path -> number of identifier uses in this file
+	rewritten := map[string]int{} // import path -> uses rewritten away
 	localName := map[string]string{}
 	for _, is := range w.file.Imports {
 		p, _ := strconv.Unquote(is.Path.Value)
